@@ -903,11 +903,11 @@ class Generator:
         return text
 
     def _locate_fn(self, f, path):
-        """path: name | Type::name | Trait for Type::name"""
-        mt = re.match(r'(?:(\w+)@)?(?:(\w+)::)?(\w+)$', path)
+        """path: name | Type::name | Trait@Type::name | Type[arg]::name (impl header must read `Type<arg...`)"""
+        mt = re.match(r'(?:(\w+)@)?(?:(\w+)(?:\[([\w, ]+)\])?::)?(\w+)$', path)
         if not mt:
             raise Inconclusive('bad fn path %r' % path)
-        trait, ty, name = mt.groups()
+        trait, ty, targ, name = mt.groups()
         if ty is None:
             # free function: depth 0 inside file or inside a `mod`? we accept any nesting depth 0 wrt file
             items = f.find_fn(name)
@@ -918,6 +918,8 @@ class Generator:
         else:
             items = []
             for kw, o, c, h in f.find_impl_blocks(ty, trait):
+                if targ and (ty + '<' + targ.replace(' ', '')) not in re.sub(r'\s', '', h):
+                    continue
                 items += f.find_fn(name, o + 1, c)
         if len(items) != 1:
             raise Inconclusive('fn %s in %s: found %d candidates' % (path, f.path, len(items)))
